@@ -2205,6 +2205,129 @@ func (w *world) cachedBadCommitScript() {
 	}
 }
 
+// rehashedBlockScript (member 1 Byzantine, leader of view 1): members 0, 2, 3 hold the correct leader's proposal A of
+// view 0, nobody is prepared; they vote for view 1 without proofs. The Byzantine leader's NEW_VIEW signs A's hash again
+// and attaches another block B to the copies for members 0 and 2 (the attached block is covered by no signature: only
+// the consumer's validation binds it to the signed hash). A proposal is validated whenever it arrives without a lock
+// (C04): B under A's hash is rejected, nobody delivers B (C01).
+func (w *world) rehashedBlockScript() {
+	for _, n := range w.honest {
+		w.sync(n, nil)
+	}
+	w.take(2, "PP", 0)
+	w.take(3, "PP", 0)
+	var a uint64
+	for _, m := range w.history {
+		if m.Kind == "PP" && m.Ref.View == 0 {
+			a = m.Ref.Hash
+		}
+	}
+	w.pool = nil
+	for _, id := range []uint64{0, 2, 3} {
+		w.election(w.byId[id], 1, 0)
+	}
+	var votes []aVote
+	seen := map[uint64]bool{}
+	for _, m := range w.history {
+		if m.Kind == "VC" && m.Vote.Height == 1 && m.Vote.View == 1 && !seen[m.Vote.Snd.Id] && m.Vote.Snd.Ok {
+			votes = append(votes, cloneVote(*m.Vote))
+			seen[m.Vote.Snd.Id] = true
+		}
+	}
+	if a == 0 || len(votes) < 3 {
+		w.rep.count("world:directed-rehashed-block-setup-failed")
+		return
+	}
+	w.pool = nil
+	for _, id := range []uint64{0, 2, 3} {
+		blk := w.blockOfHash(a)
+		if id != 3 {
+			blk = &aBlock{Height: 1, Id: 2999998} // another block under A's hash
+		}
+		nv := &aMsg{Kind: "NV", NVType: 4, NVInst: worldInst, NVHeight: 1, NVView: 1, Votes: votes, Snd: aSig{1, true},
+			Ref: aRef{1, worldInst, 1, 1, a}, PPSnd: aSig{1, true}, Block: blk}
+		w.inject(w.byId[id], nv, "byz-NV-known-hash-other-block")
+	}
+	for round := 0; round < 2; round++ {
+		for k := 0; k < 60 && len(w.pool) > 0; k++ {
+			p := w.pool[0]
+			w.pool = w.pool[1:]
+			if w.byz[p.to] {
+				continue
+			}
+			w.deliverG(w.byId[p.to], p.msg, p.raw, p.genuine)
+		}
+		for _, id := range []uint64{0, 2, 3} { // the Byzantine leader supports the hash it signed
+			w.inject(w.byId[id], &aMsg{Kind: "P", Ref: aRef{2, worldInst, 1, 1, a}, Snd: aSig{1, true}}, "byz-P")
+			w.inject(w.byId[id], &aMsg{Kind: "C", Ref: aRef{3, worldInst, 1, 1, a}, Snd: aSig{1, true}, ShareOk: true}, "byz-C")
+		}
+	}
+}
+
+// replayedSignatureScript (member 3 Byzantine): member 1 is prepared on A and holds its own COMMIT and member 0's. The
+// Byzantine member first sends a correctly signed COMMIT for view 7 (stored for later), then a COMMIT for view 0 whose
+// header is right and whose signature is the one it made over the view-7 header. A signature is verified against the
+// bytes it is presented with, every time (C08); the COMMIT is not counted and no proof with that signature in it is
+// handed to the commit callback (C03).
+func (w *world) replayedSignatureScript() {
+	for _, n := range w.honest {
+		w.sync(n, nil)
+	}
+	w.take(1, "PP", 0)
+	w.take(2, "PP", 0)
+	w.take(1, "P", 2)
+	var a uint64
+	for _, m := range w.history {
+		if m.Kind == "PP" && m.Ref.View == 0 {
+			a = m.Ref.Hash
+		}
+	}
+	w.take(0, "P", 1)
+	w.take(0, "P", 2)
+	w.take(1, "C", 0)
+	n1 := w.byId[1]
+	if a == 0 || n1.hasCommitted(1) {
+		w.rep.count("world:directed-replayed-signature-setup-failed")
+		return
+	}
+	w.pool = nil
+	w.inject(n1, &aMsg{Kind: "C", Ref: aRef{3, worldInst, 1, 7, a}, Snd: aSig{3, true}, ShareOk: true}, "byz-C-future-view")
+	w.codec.replaySigs = true
+	w.inject(n1, &aMsg{Kind: "C", Ref: aRef{3, worldInst, 1, 0, a}, Snd: aSig{3, false}, ShareOk: true}, "byz-C-replayed-signature")
+	w.codec.replaySigs = false
+}
+
+// reproposalDuringPendingSyncScript (four correct members): member 3 is prepared on A in view 0; view 1 is elected on
+// its vote and re-proposes A. Member 2's main loop has meanwhile accepted a sync to a later block that its worker has
+// not taken yet - the contexts of its present position are already superseded. A NEW_VIEW that re-proposes a locked
+// block needs no consumer call and therefore no context: member 2, still in view 0 of the height, adopts it (C11).
+func (w *world) reproposalDuringPendingSyncScript() {
+	for _, n := range w.honest {
+		w.sync(n, nil)
+	}
+	w.take(2, "PP", 0)
+	w.take(3, "PP", 0)
+	w.take(3, "P", 2)
+	w.pool = nil
+	for _, id := range []uint64{3, 0, 1} {
+		w.election(w.byId[id], 1, 0)
+	}
+	w.takeV(1, "VC", 3, 1)
+	w.takeV(1, "VC", 0, 1)
+	n2 := w.byId[2]
+	w.splitSyncs, w.forceSplit = true, true
+	w.sync(n2, &aBlock{Height: 5, Id: 2999985})
+	w.splitSyncs, w.forceSplit = false, false
+	if w.pendingSync[2] == nil {
+		w.rep.count("world:directed-reproposal-during-pending-sync-setup-failed")
+		return
+	}
+	if !w.takeV(2, "NV", 1, 1) {
+		w.rep.count("world:directed-reproposal-during-pending-sync-setup-failed")
+	}
+	w.flushSync(n2)
+}
+
 func (w *world) kf1ForkScript() {
 	for _, n := range w.honest {
 		w.sync(n, nil)
